@@ -32,7 +32,8 @@ class Ctx:
         rc.time = kernel.TimeShim(self.clock)
         kernel.reset_rope_globals()
         self.fs = simfs.SimFS(self.root, self.clock)
-        self.project = Project(self.root, fscommands=self.fs, ropefolder=None)
+        limit = (trace.get("swarm") or {}).get("limit", 32)
+        self.project = Project(self.root, fscommands=self.fs, ropefolder=None, max_history_items=limit)
         self.changes = {}  # id -> realized ChangeSet
         self.sel = trace.get("sel", 0)
         self.base = kernel.snapshot(self.root)
@@ -194,6 +195,8 @@ class AtomicEngine(Engine):
             "errnos": rng.choice([["EIO"], ["ENOSPC", "EACCES", "EIO"]]),
             "cuts": rng.choice([[2], [0, 2, 4], [0, 1, 3]]),
             "prelude": rng.choice([0, 1, 2, 3]),
+            # sometimes the undo list is already full when the victim is performed
+            "limit": rng.choice([32, 32, 1, 2, 3]),
         }
         if rng.random() < 0.25:
             # victim = a real refactoring on a small multi-module program
@@ -456,22 +459,34 @@ class AtomicEngine(Engine):
     def _check_consistent(self, out, trace, fault, ctx, after, info):
         from ..model import ModelError, TreeModel
 
-        recs = {st["cs"]["desc"]: st["cs"]["ops"] for st in trace.get("prelude", []) if st["op"] == "do"}
-        recs["victim"] = trace["victim"]["ops"]
+        # change sets in the order they were performed; a prelude "undo" takes the
+        # last one back and the victim's do then clears it from the redo list
+        performed = []
+        for st in trace.get("prelude", []):
+            if st["op"] == "do":
+                performed.append((st["cs"]["desc"], st["cs"]["ops"]))
+            elif st["op"] == "undo" and performed:
+                performed.pop()
+        performed.append(("victim", trace["victim"]["ops"]))
         undo_descs = [c[1] for c in after[1][0]]
         redo_descs = [c[1] for c in after[1][1]]
         out.stats["probe_selective_undo_interrupted"] += 1
-        if len(redo_descs) != len(set(redo_descs)) or set(undo_descs) & set(redo_descs):
+        known = {d for d, _ in performed}
+        if (len(redo_descs) != len(set(redo_descs)) or set(undo_descs) & set(redo_descs)
+                or not set(undo_descs) <= known or not set(redo_descs) <= known):
             out.violate("history_inconsistent", info, {"fault": fault, "undo": undo_descs, "redo": redo_descs,
-                                                       "msg": "a change set is on both lists or twice on one"}, where=fault)
+                                                       "msg": "a change set is on both lists, twice on one, or unknown"}, where=fault)
             return
+        # in force = performed and not (now) on the redo list; those no longer on
+        # the undo list either were dropped by the history limit but stay applied
         t = TreeModel(ctx.base)
         try:
-            for d in undo_descs:
-                t.apply_all(recs[d])
-        except (ModelError, KeyError) as e:
+            for d, ops in performed:
+                if d not in redo_descs:
+                    t.apply_all(ops)
+        except ModelError as e:
             out.violate("history_inconsistent", info, {"fault": fault, "undo": undo_descs, "redo": redo_descs,
-                                                       "msg": "the undo list cannot be replayed: %r" % (e,)}, where=fault)
+                                                       "msg": "the changes in force cannot be replayed: %r" % (e,)}, where=fault)
             return
         if t.files != after[0]:
             differing = sorted(k for k in set(after[0]) | set(t.files) if after[0].get(k) != t.files.get(k))
